@@ -33,7 +33,10 @@ fn main() {
         }
         i += 1;
     }
-    // silence panics inside case evaluation (they are reported through the runner)
+    // panics inside case evaluation are caught and reported through the runner
+    if std::env::var_os("GAIV_PANIC_TRACE").is_none() {
+        std::panic::set_hook(Box::new(|_| {}));
+    }
     let code = props::dispatch(&id, tier, replay.as_deref());
     gaiv::sandbox::cleanup_scratch_root();
     std::process::exit(code);
